@@ -25,21 +25,21 @@ type Prog struct {
 	lay     *layouter
 	typeIDs map[string]int
 	globals map[*ssa.Global]int
-	embed   map[string]bool // type strings of struct types that occur by value inside other types
+	embed   map[string]bool                  // type strings of struct types that occur by value inside other types
 	holders map[string]map[string]types.Type // type string -> types that hold it by value (direct)
 
-	contracts map[string]*Contract // by function key
-	specFuncs map[string]*SpecFunc
-	counts    map[string][]string // label -> callee keys
-	countOf   map[string][]string // callee key -> labels
-	globalInvs []*GlobalInv
-	prot      []int
-	effFree   map[*ssa.Function]bool
-	reachMemo map[*ssa.Function]int
-	reachLabels map[string]bool
+	contracts    map[string]*Contract // by function key
+	specFuncs    map[string]*SpecFunc
+	counts       map[string][]string // label -> callee keys
+	countOf      map[string][]string // callee key -> labels
+	globalInvs   []*GlobalInv
+	prot         []int
+	effFree      map[*ssa.Function]bool
+	reachMemo    map[*ssa.Function]int
+	reachLabels  map[string]bool
 	byMethodName map[string][]*ssa.Function
-	protDone  bool
-	repoDir   string
+	protDone     bool
+	repoDir      string
 }
 
 func loadProg(repoDir string, patterns []string) (*Prog, error) {
